@@ -611,7 +611,7 @@ def draw_case(d, kinds=None, *, degenerate=False, general_position=False,
         case.init = np.stack([soft[rng.permutation(K)] for _ in range(lead_[0])])
         case.np_seed = 0
         ik = 'permuted-blurred-truth'
-    if epoch3 and case.init is not None and ik.startswith('onehot') and kind != 'cacgmm' \
+    if epoch3 and case.init is not None and ik.startswith('onehot') and kind not in INTEGRATION \
             and int(aux3.integers(0, 3)) < (2 if case.meta.get('frames') == 'many' else 1):
         # a hard partition as the caller may store it: boolean or small integers
         dt = [np.int8, np.bool_, np.int64, np.float32, np.int8][int(aux3.integers(0, 5))]
